@@ -512,6 +512,9 @@ type syncFollower struct {
 	id       int
 	switches int  // how many times this node left its chain (or was rolled back)
 	lastOK   bool // the most recent delivery was accepted completely
+	// lastIdx / lastClass: what the most recent InsertChain call returned (index, error class) — s_syncbatches_again.go
+	lastIdx   int
+	lastClass string
 	// extraPooled: a delivery carried an unlisted account block that is valid on its own: like a gossiped block it may stay in the
 	// node's pool of unconfirmed blocks for good (the pool is then no longer compared with that of a node that only saw the chain)
 	extraPooled bool
@@ -606,6 +609,18 @@ func (r *syncRun) deliverVia(f *syncFollower, kind string, batch []elem, via fun
 		class = "panic"
 		idx = 0
 	}
+	f.lastIdx, f.lastClass = idx, class
+	// firstUnknown: the elements in front of it are momentums the node held when the batch was inserted (same height, same hash):
+	// InsertChain skips them without looking at anything but height and hash, so a damaged COPY of a held momentum in that prefix
+	// is not something the node verified or adopted (the node keeps its own verified copy: M1 / M7 judge that)
+	firstUnknown := 0
+	for firstUnknown < len(batch) {
+		m := batch[firstUnknown].dm.Momentum
+		if m.Height < 1 || int(m.Height) > len(before) || before[m.Height-1] != m.Hash {
+			break
+		}
+		firstUnknown++
+	}
 	for i := range batch {
 		if batch[i].lenient && class == "verify" && idx == i {
 			batch[i].valid = false // the node chose to refuse the altered copy
@@ -676,6 +691,11 @@ func (r *syncRun) deliverVia(f *syncFollower, kind string, batch []elem, via fun
 			break
 		}
 	}
+	// M7: everything the node holds above the point where its chain changed verifies under the harness's OWN verification (its own
+	//     pre-image hash, ed25519 over it under the stored key, key owns the address, PoW nonce) — s_syncbatches_again.go
+	if !sameHashes(before, after) && !r.heldVerifies(f, commonPrefix(before, after), false, desc) {
+		ok = false
+	}
 	// M4: nothing in the pool of unconfirmed blocks differs from what the producer made
 	if !r.poolMonitor(f, desc) {
 		ok = false
@@ -734,7 +754,7 @@ func (r *syncRun) deliverVia(f *syncFollower, kind string, batch []elem, via fun
 				ok = false
 			}
 			for i, e := range batch {
-				if !e.valid {
+				if !e.valid && i >= firstUnknown {
 					c.Fail("C16 InsertChain accepted a batch whose element %d is corrupted (%s); %s", i, e.note, desc)
 					ok = false
 				}
@@ -745,7 +765,7 @@ func (r *syncRun) deliverVia(f *syncFollower, kind string, batch []elem, via fun
 				c.Fail("C16 reported index %d outside the batch of %d; %s", idx, len(batch), desc)
 				ok = false
 			} else {
-				for i := 0; i < idx; i++ {
+				for i := firstUnknown; i < idx; i++ {
 					if !batch[i].valid {
 						c.Fail("C16 class=index-after-bad reported index %d but element %d is corrupted (%s); %s", idx, i, batch[i].note, desc)
 						ok = false
@@ -1162,6 +1182,11 @@ func init() {
 		// ---- part 2e: directed: gossip - reorganisation - restart - gossip of abandoned blocks - the abandoned branch again - back
 		//      (s_syncbatches_nr.go), every step on the abstract trace
 		r.directedReorg()
+
+		// ---- part 2f: directed: verification verdicts must not be remembered across deliveries — every kind of element the node
+		//      verifies is presented AGAIN, damaged under its unchanged hash, after the node verified the honest original and still
+		//      holds it / lost it in a reorganisation / verified it in a batch that failed / refused it before (s_syncbatches_again.go)
+		r.directedAgain()
 
 		// ---- part 3: random operations on short-lived followers placed near the fork points ----------------
 		for r.tests < c.N {
